@@ -79,3 +79,25 @@ Definition gs_parse_int (s : gstr) (base bits : Z) : Z * bool :=
   else (0, true).       (* other bases (0: prefixes and underscores) are not given a meaning: no equivalence can be proved *)
 Definition gs_atoi (s : gstr) : Z * bool := gs_parse_int s 10 0.
 Definition gs_parse_bool (s : gstr) : bool * bool := gs_of_opt false (parse_bool s).
+
+(* elements as their methods and the getters see them: an element with its children one level deep; a map is an
+   association list (the order of a Go map iteration is unspecified: theorems about loops over a map hold for every order) *)
+Record gchild := { gc_kind : Z; gc_name : gstr; gc_value : gstr }.
+Record gelem := { ge_kind : Z; ge_name : gstr; ge_value : gstr; ge_children : list (gstr * gchild); ge_line : list gstr }.
+Definition ge_set_value (e : gelem) (v : gstr) : gelem :=
+  {| ge_kind := ge_kind e; ge_name := ge_name e; ge_value := v; ge_children := ge_children e; ge_line := ge_line e |}.
+Definition ge_set_line (e : gelem) (l : list gstr) : gelem :=
+  {| ge_kind := ge_kind e; ge_name := ge_name e; ge_value := ge_value e; ge_children := ge_children e; ge_line := l |}.
+Definition ge_set_children (e : gelem) (c : list (gstr * gchild)) : gelem :=
+  {| ge_kind := ge_kind e; ge_name := ge_name e; ge_value := ge_value e; ge_children := c; ge_line := ge_line e |}.
+Fixpoint gs_map_get {V} (m : list (gstr * V)) (k : gstr) : option V :=
+  match m with [] => None | (k', v) :: r => if gs_eqb k' k then Some v else gs_map_get r k end.
+Definition gs_map_get2 {V} (m : list (gstr * V)) (k : gstr) : option V * bool :=
+  match gs_map_get m k with Some v => (Some v, true) | None => (None, false) end.
+Fixpoint gs_map_set {V} (m : list (gstr * V)) (k : gstr) (v : V) : list (gstr * V) :=
+  match m with
+  | [] => [(k, v)]
+  | (k', v') :: r => if gs_eqb k' k then (k', v) :: r else (k', v') :: gs_map_set r k v
+  end.
+Definition gs_is_some {A} (o : option A) : bool := match o with Some _ => true | None => false end.
+Definition gs_get {A} (d : A) (o : option A) : A := match o with Some v => v | None => d end.
